@@ -42,7 +42,8 @@ def r_C26eval(root):
     for (lang, target, anyp), want in ((("lang", "t1", False), "lang/t1"), (("lang", "t1", True), "lang/t1"), (("LANG", "T1", False), "lang/t1"), (("lang", "t2", True), "any/t2"), (("lang", "t2", False), "raise TextXRegistrationError"),
                                        (("nolang", "t2", True), "any/t2"), (("nolang", "t2", False), "raise TextXRegistrationError"), (("nolang", "t9", True), "raise TextXRegistrationError")):
         inst += 1
-        env = {ps[0]: lang, ps[1]: target, "generators": {"lang": {"t1": G1}, "any": {"t2": G2, "t1": G3}}, "generator_descriptions": pyeval.PyFn(lambda: None)}
+        GENS_ = {"lang": {"t1": G1}, "any": {"t2": G2, "t1": G3}}
+        env = {ps[0]: lang, ps[1]: target, "generators": GENS_, "generator_descriptions": pyeval.PyFn(lambda: GENS_)}          # generator_descriptions() makes sure the registry is loaded and returns it
         if len(ps) > 2: env[ps[2]] = anyp
         k, v, _e = run("generator_description", env)
         got = v[".t"] if k == "ret" and isinstance(v, dict) else "%s %s" % (k, v)
